@@ -253,7 +253,8 @@ Proof.
     right. exists A, e, B. split; [exact Hp|reflexivity].
 Qed.
 
-(* M4 *)
+(* M4: begin / last / end / ++ / -- from any state related to a sorted-map state (valid tree of any size and
+   depth, iterator on an entry or at end()): same result, relation kept, no warning *)
 Lemma nn_iter_refines_lemma : forall (t : Z) (s : nnst Z) (m : smst Z) (op : nnop Z),
   c18_rel t s m -> In op [OpBegin; OpLast; OpEnd; OpNext; OpPrev] -> c18_step_ok t op s m.
 Proof.
